@@ -8,6 +8,7 @@ class is lowered in turn, with the default omega2 algorithm, both forced algorit
 import numpy as np
 from vmon import gen, work_vac, work_inter
 from vmon.util import Mon
+from vmon.trace import lij_probe
 
 ID = 'C05'
 RULE = ('interstitial: random crystals/networks/energies (as C02), each jump class lowered by U(0.05,3); vacancy: crystal pool x '
@@ -25,7 +26,7 @@ REQUIRED_OBS = {'eval:C05:interstitial': 60, 'eval:C05:L0vv': 30, 'eval:C05:Lss'
                 'lowered_om2': 10, 'large_om2_branch_cases': 3}
 CASE_TIMEOUT = 900
 QUICK = [('fcc', 1), ('bcc', 1), ('hcp', 1), ('square', 1), ('honey', 1), ('omega', 1), ('tria', 1), ('lieb', 1),
-         ('dtria', 1), ('diamond', 1), ('fcc', 2), ('sc', 1)]
+         ('dtria', 1), ('diamond', 1), ('fcc', 2), ('sc', 1), ('tric', 1), ('p2', 1), ('mono2', 1)]
 THOROUGH = QUICK + [('rumpled', 1), ('b2', 1), ('kagome', 1), ('l12', 1), ('tet', 1), ('rect', 1), ('bcc', 2), ('square', 2),
                     ('honey', 2), ('hcp', 2)]
 
@@ -90,7 +91,9 @@ def run_vac(case, mon):
         if sample is None: sample = desc
         mon.count('large_om2_branch_cases', variant in ('large', 'bigom2'))
         try:
-            base = [np.array(x) for x in diff.Lij(*args, **kw)]
+            with lij_probe(diff) as probe:
+                base = [np.array(x) for x in diff.Lij(*args, **kw)]
+            if probe.hits['large'] > 0 and 'large_om2_algorithm' not in tags: tags.append('large_om2_algorithm')
         except Exception as e:
             import traceback
             mon.fail('C05:Lij:raises:' + type(e).__name__, traceback.format_exc()[-600:] + str(desc), tags)
